@@ -103,13 +103,16 @@ func (in *Interp) runRegion(fr *Frame, blk, prev, stop *ssa.BasicBlock, phisDone
 		if !phisDone {
 			if prev != nil && fr.info.backedge[[2]int{prev.Index, blk.Index}] {
 				fr.visits[blk]++
-				if in.cfg.Cut > 0 && fr.visits[blk] > in.cfg.Cut && in.repoFrame(fr) && len(in.guards) > 0 {
+				if in.cfg.Cut > 0 && fr.visits[blk] > in.cfg.Cut && in.repoFrame(fr) && len(in.guards) > 0 && fr.symLoop[blk] {
 					// stated bound: symbolic paths that go round this loop more often are assumed away
 					in.notes = appendNote(in.notes, fmt.Sprintf("loop in %s (block %d) cut after %d iterations on symbolic paths: longer paths are outside the claim", fr.fn.Name(), blk.Index, in.cfg.Cut))
 					panic(pathDead{"loop cut"})
 				}
 			} else {
 				fr.visits[blk] = 0
+				if fr.symLoop != nil {
+					delete(fr.symLoop, blk)
+				}
 			}
 			if fr.visits[blk] > in.cfg.Unwind {
 				panic(unsupported{fmt.Sprintf("unwinding bound %d exceeded in %s block %d", in.cfg.Unwind, fr.fn, blk.Index)})
@@ -165,6 +168,19 @@ func (in *Interp) runRegion(fr *Frame, blk, prev, stop *ssa.BasicBlock, phisDone
 			}
 			// pruning is needed for termination only where the branch decides about staying in a
 			// loop; elsewhere both arms are executed under their guard and merged.
+			{
+				// a loop is "symbolic" (and subject to the stated cut) only once a symbolic condition
+				// has been branched on in its function since the loop was entered; a loop whose body
+				// and trip count are concrete and that merely runs under a symbolic guard of a caller
+				// or of an enclosing branch is executed in full (a 12-iteration table initialisation
+				// under a symbolic leap-year test was once cut away, and a seeded race with it)
+				if fr.symLoop == nil {
+					fr.symLoop = map[*ssa.BasicBlock]bool{}
+				}
+				for h := range fr.visits {
+					fr.symLoop[h] = true
+				}
+			}
 			ft, ff := true, true
 			if es, ok := fr.info.exitSucc[blk]; ok && in.cfg.Cut > 0 && in.repoFrame(fr) && fr.visits[fr.info.exitHeader[blk]] >= in.cfg.Cut-1 {
 				// stated bound: paths that stay in this loop any longer are outside the claim
